@@ -498,6 +498,12 @@ class AlignmentCollector:
             max_cov = coverage_dict[current_start]
             pos = min(current_start + 1, coverage_positions[-1] + 1)
 
+        if not split_regions:
+            # all alignments fall into a single coverage bin
+            return [genomic_region]
+        if split_regions[-1][1] < genomic_region[1]:
+            # the last bin follows a coverage valley: make sure the tail of the region is not lost
+            split_regions[-1] = (split_regions[-1][0], genomic_region[1])
         return split_regions
 
     @staticmethod
